@@ -52,7 +52,7 @@ ENGINE = "hypothesis @given (plain-data cases); harness collocation reference on
 #              dT/dchi (replays/C12/known_fd_dvdchi_*.json).  With the switch on, finite-difference
 #              source comparisons only use backgrounds on which the defective line is accidentally
 #              right: constant T and v ("f"), or v_plasma - T constant ("tied" classes).
-AVOID = {"fd_dvdchi": True}
+AVOID = {"fd_dvdchi": False}  # defect repaired in /repo (fix: commit e8611e9); class searched again
 if os.environ.get("VERIF_NO_AVOID"):  # testing aid: VERIF_NO_AVOID=1 ./run C12 quick (e.g. on a patched tree)
     AVOID = {k: False for k in AVOID}
 
@@ -66,13 +66,13 @@ RULE = (
     "distinct by canonical JSON."
 )
 BUDGET = {
-    "quick": {"cases": 1280, "shrink": False, "time_cap_s": 900},
-    "thorough": {"cases": 5000, "shrink": False, "time_cap_s": 3000},
+    "quick": {"cases": 1280, "shrink": True, "time_cap_s": 900},
+    "thorough": {"cases": 15000, "shrink": False, "time_cap_s": 3000},
 }
 EPS = 2.0 ** -52
 K_RES = 10.0
-K_BASIS = 100.0
-K_REF = 100.0
+K_BASIS = 20.0
+K_REF = 20.0
 K_HOM = 100.0
 KAPPA_DISCARD = 1e10
 KAPPA_NONTRIVIAL = 1e8
@@ -80,12 +80,17 @@ TOLERANCES = {
     "residual": "||A x - S||_2 <= K_RES*n*eps*(||A||_F ||x||_2 + ||S||_2)", "K_RES": K_RES,
     "basis-deltaf": "||f_cfg - f_ref||_inf <= K_BASIS*eps*(kappa_cfg + kappa_ref)*||f||_inf, kappa = LAPACK 1-norm estimate",
     "K_BASIS": K_BASIS,
-    "reference": "||f - f_harness||_inf <= K_REF*eps*(kappa + kappa_harness)*(1 + M^2/amp_min)*||f||_inf", "K_REF": K_REF,
+    "reference": "||f - f_harness||_inf <= K_REF*eps*(kappa + kappa_harness)*(1 + c_diff)*||f||_inf, c_diff = computed "
+                 "conditioning of the spectral differentiation of T, v, m^2 relative to source and force term",
+    "K_REF": K_REF,
     "hom": "||S_hom||_1 <= K_HOM*eps*M^2*||S_1%||_1/0.01 ; ||x_hom||_1 <= ||A^-1||_1 * that bound (+ rounding)",
     "K_HOM": K_HOM,
     "kappa_discard": KAPPA_DISCARD,
     "fd-convergence": "e(4M) <= max(e(M)/4, 1e-8) for M = 8, 16 and e(64) <= 5e-2 (DESIGN 3/C12)",
     "dfeq-identity": "relative 1e-9 for x in [0.05, 60]",
+    "measured": "unchanged tree, ~2000 solve cases over 8 seeds: residual/bound <= 3.4e-3, basis error/bound <= 2.6e-2, "
+                "reference error/bound <= 8e-3, hom source/bound <= 5.4e-3; conv (repaired tree, all classes, ~400 cases): "
+                "e(32)/e(8) <= 0.11, e(64)/e(16) <= 0.07, e(64) <= 6.3e-3",
 }
 ASSUMPTIONS = [
     "Grid coordinates and Jacobians (xi, pz, pp, dxi/dchi, dpz/drz) are taken from the grid object (C17 checks them).",
@@ -369,8 +374,8 @@ def delta_weights(grid, msq_int):
 
 
 def reference_system(case, grid, T, v, phi, Ks):
-    """Harness collocation assembly in function space.  Returns (A, S) on the interior nodes, C order
-    (a, alpha, beta, gamma)."""
+    """Harness collocation assembly in function space.  Returns (A, S, c_diff) on the interior nodes,
+    C order (a, alpha, beta, gamma); c_diff = (rounding scale of S)/|S| + (rounding scale of the force term)/|A|."""
     P = len(case["particles"])
     M, N = grid.M, grid.N
     m, n = M - 1, N - 1
@@ -389,8 +394,12 @@ def reference_system(case, grid, T, v, phi, Ks):
     dv = (Dx @ vpl)[1:-1]
     Ti, vi = T[1:-1], vpl[1:-1]
     gp = 1 / np.sqrt(1 - vi ** 2)
+    aDx = np.abs(Dx)
+    rT, rv = (aDx @ np.abs(T))[1:-1], (aDx @ np.abs(vpl))[1:-1]  # rounding scale of the derivatives
     A = np.zeros((P, m, n, n, P, m, n, n))
     S = np.zeros((P, m, n, n))
+    Sabs = np.zeros((P, m, n, n))
+    cm = 0.0
     DxI = Dx[1:-1, 1:-1]
     DzI = Dz[1:-1, 1:-1]
     mult = case.get("mult", 1.0)
@@ -412,6 +421,13 @@ def reference_system(case, grid, T, v, phi, Ks):
                 * (Pw * Ppl * gp[:, None, None] ** 2 * dv[:, None, None]
                    + Pw * Epl * dT[:, None, None] / Ti[:, None, None]
                    + 0.5 * dm[:, None, None] * gw * gp[:, None, None] * (vw - vi[:, None, None])))
+        rm = (aDx @ np.abs(msq))[1:-1]
+        Sabs[a] = (np.abs(dfeq) / Ti[:, None, None] / dxi[:, None, None]
+                   * (np.abs(Pw * Ppl) * gp[:, None, None] ** 2 * rv[:, None, None]
+                      + np.abs(Pw * Epl) * rT[:, None, None] / Ti[:, None, None]
+                      + 0.5 * rm[:, None, None] * gw * gp[:, None, None] * np.abs(vw - vi[:, None, None])))
+        # rounding of the force-term coefficient, measured against the whole operator further down
+        cm = max(cm, float(((gw / 2) * rm[:, None] / dxi[:, None] / dpz[None, :]).max()))
         c1 = Pw / dxi[:, None, None]
         c2 = -(gw / 2) * dm[:, None, None] / dxi[:, None, None] / dpz[None, :, None] * np.ones_like(E)
         for b_ in range(n):
@@ -425,7 +441,11 @@ def reference_system(case, grid, T, v, phi, Ks):
             for al in range(m):
                 A[a, al, :, :, b, al, :, :] += mult * Ti[al] ** 2 * K
     nn = P * m * n * n
-    return A.reshape(nn, nn), S.reshape(nn)
+    A = A.reshape(nn, nn)
+    s1 = float(np.abs(S).sum())
+    cS = float(np.abs(Sabs).sum() / s1) if s1 > 0 else 0.0
+    cA = cm * float(np.abs(DzI).sum(axis=0).max()) / float(np.abs(A).sum(axis=0).max())
+    return A, S.reshape(nn), cS + cA
 
 
 # ---------------------------------------------------------------------------
@@ -581,7 +601,7 @@ def check_solve(case, v: Verdict):
             return
         # ---- harness reference in function space ---------------------------------------------------
         v.checked("reference")
-        A0, S0 = reference_system(case, grid, T, vv, phi, Ks)
+        A0, S0, cdiff = reference_system(case, grid, T, vv, phi, Ks)
         k0, _, lu0 = kappa1(A0)
         if not np.isfinite(k0) or k0 > KAPPA_DISCARD:
             v.discarded("singular: harness kappa > 1e10")
@@ -589,9 +609,10 @@ def check_solve(case, v: Verdict):
         from scipy.linalg import lu_solve
 
         f0 = lu_solve(lu0, S0, check_finite=False).reshape(f_ref.shape)
-        amps = [case["bg"][c]["amp"] for c in "Tvf" if c in cls_bg]
-        amp_min = min(amps) if amps else 1.0
-        rel = K_REF * EPS * (k0 + ref["kappa"]) * (1 + g["M"] ** 2 / amp_min)
+        # cdiff: computed conditioning of the spectral differentiation of the profiles (cancellation
+        # in D@T, D@v, D@m^2), relative to the assembled source and force term
+        rel = K_REF * EPS * (k0 + ref["kappa"]) * (1 + cdiff)
+        v.info["cdiff"] = cdiff
         err = float(np.abs(f_ref - f0).max())
         f0max = max(fmax, float(np.abs(f0).max()))
         v.info["ref_err_over_bound"] = err / (rel * f0max) if f0max > 0 else 0.0
